@@ -1303,6 +1303,10 @@ def gen_case(rng, profile='c10', max_ops=None):
             if sstate[i]['exists'] and rng.random() < 0.5:
                 srv = {kk: vv for kk, vv in sstate[i].items() if kk in ('id', 'rack', 'cap', 'partition', 'traits')}
                 srv['cap'] = [rng.choice([1000, 2000, 3000, 4000]), srv['cap'][1], srv['cap'][2]]
+                if rng.random() < 0.25:
+                    # a large dimension re-declared by one unit (a 200G disk that loses 1M): every change counts
+                    big = 204800 if srv['cap'][2] < 100000 else srv['cap'][2] + rng.choice([-1, 1])
+                    srv['cap'] = [sstate[i]['cap'][0], srv['cap'][1], big]
             up = sstate[i]['up'] if sstate[i]['exists'] else False
             sstate[i] = dict(srv, up=up, exists=True)
             ops.append(['ServerRecord', srv])
